@@ -96,21 +96,21 @@ claimed["C16"] = (
 # ---- round 2 additions (appended to the level text of each check)
 _r2 = {
  "C01": "Round 2: forms with two aliases in a group whose member lists differ in length; two providers built from one collection and alive together (every history to depth 4/5 over use/close of both): one construction per singleton per provider, nothing shared. Singletons looked up while Build runs: three singletons, all 64 dependency edge sets x injected {Provider, Scope} x looked-up targets x 6 registration orders, the lookups made by a constructor itself and by a goroutine it starts (all schedules within the bound).",
- "C02": "Round 2: scoped result objects with a nil field (only handed-out identities are judged); one scoped registration behind two interface aliases resolved concurrently through different aliases / their dependents; groups with members of all three lifetimes in every registration order. An output of a scoped multi-output registration removed before Build and registered again by another constructor, both resolved concurrently (result object / multiple returns; direct and through dependents), with a per-identity oracle.",
- "C03": "Round 2: rebuild-after-edit histories with the clause that a registered optional transient dependency is injected whatever earlier providers of the collection saw; same-signature registrations resolved concurrently; groups with members of all three lifetimes in all 6 registration orders, requested repeatedly in one scope.",
+ "C02": "Round 2: scoped result objects with a nil field (only handed-out identities are judged); one scoped registration behind two interface aliases resolved concurrently through different aliases / their dependents; groups with members of all three lifetimes in every registration order. An output of a scoped multi-output registration removed before Build and registered again by another constructor, both resolved concurrently (result object / multiple returns; direct and through dependents), with a per-identity oracle. Initializer histories in which the collection is edited after Build (initializers and services removed) and an initializer depends on a later registered one: every scope runs each initializer exactly once.",
+ "C03": "Round 2: rebuild-after-edit histories with the clause that a registered optional transient dependency is injected whatever earlier providers of the collection saw; same-signature registrations resolved concurrently; groups with members of all three lifetimes in all 6 registration orders, requested repeatedly in one scope. Clause 'one invocation per request site': no invocation of a multi-output transient constructor serves two sites.",
  "C04": "Round 2: rebuild-after-edit histories (optional dependencies registered after an earlier Build must be injected); instance values behind one / two aliases; result objects carrying one type under unkeyed / group / keyed fields; one output of a multi-output registration removed and registered again with another constructor; three-output constructors with a nil output (the others keep their identities).",
  "C05": "Round 2: container cases also with every edge declared as an optional In field and with ascending / descending registration order.",
  "C06": "Round 2: rebuild-after-edit: every history to depth 5/6 over {12 Add variants, Remove x3, RemoveKeyed, Build x<=2}, each Build verdict compared with a fresh collection holding the surviving registrations.",
  "C07": "Round 2: the rebuild-after-edit histories (see C06) with the captive-instance clause: no Build, however the collection got there, hands a scoped instance to a singleton / transient.",
- "C08": "Round 2: dependencies declared twice as an optional field followed by a required field; every per-service form assignment for <=3 services (group-member / keyed / aliased dependents with plain dependencies); the rebuild-after-edit histories (see C06) with the not-found clauses.",
+ "C08": "Round 2: dependencies declared twice as an optional field followed by a required field; every per-service form assignment for <=3 services (group-member / keyed / aliased dependents with plain dependencies); the rebuild-after-edit histories (see C06) with the not-found clauses. Dependencies on the built-in injectables as plain, keyed, keyed-optional, optional and group fields (one or two) of constructors and initializers of every lifetime.",
  "C09": "Round 2: sync.RWMutex modelled with Go's writer preference; a scoped initializer that calls back into the container (creates a child scope) against Close(provider) / CreateScope / Get.",
- "C10": "Round 2: multi-return constructors whose nil output is a nil interface next to a live disposable sibling; initializer / scoped-service errors wrapping another scope's disposed sentinel; services whose dynamic type (disposable or not) varies between invocations; multi-output constructors with a partial-nil first invocation; one disposable behind two interface aliases (all lifetimes); two providers from one collection (closing one closes exactly what it owns).",
- "C11": "Round 2: held-open oracle (no disposable closed while an established, still-open disposable that received it exists), also on every schedule (bound 2/3) of the 9 Close-overlap scenarios - beyond the property's own quantifier. The C12 fault sequences (every subset of failing Close methods on provider > s1 > {s2, s3}, every node closed first) under the order oracle.",
- "C12": "Round 2: re-entrant Close (an owned instance closing its scope / the parent from its own Close) through Close(scope|parent|provider) and cancel; an interface-typed service that is disposable only in some scopes; a disposable singleton behind two interface aliases is part of the tree (512 subsets).",
- "C13": "Round 2: two overlapping cascades (Close(parent)||Close(provider), Close(parent) x2, Close(child)||Close(provider)) followed by use, judged on returned-Close stamps; overlap scenarios with the late instance's own Close failing; two providers from one collection. A disposable whose Close joins whatever another goroutine is doing on the scope (scoped in the scope / its parent, or a singleton) x 4 closers x 4 in-flight operations, all schedules within the bound: no deadlock.",
+ "C10": "Round 2: multi-return constructors whose nil output is a nil interface next to a live disposable sibling; initializer / scoped-service errors wrapping another scope's disposed sentinel; services whose dynamic type (disposable or not) varies between invocations; multi-output constructors with a partial-nil first invocation; one disposable behind two interface aliases (all lifetimes); two providers from one collection (closing one closes exactly what it owns). Fault kind 'the Build context is cancelled while this constructor runs' at every Build-time constructor, on the rich container and on dependency chains whose last node is a singleton.",
+ "C11": "Round 2: held-open oracle (no disposable closed while an established, still-open disposable that received it exists), also on every schedule (bound 2/3) of the 9 Close-overlap scenarios - beyond the property's own quantifier. The C12 fault sequences (every subset of failing Close methods on provider > s1 > {s2, s3}, every node closed first) under the order oracle. Failing initializers (error / panic at invocation 1-3): the half-built scope is torn down in reverse creation order.",
+ "C12": "Round 2: re-entrant Close (an owned instance closing its scope / the parent from its own Close) through Close(scope|parent|provider) and cancel; an interface-typed service that is disposable only in some scopes; a disposable singleton behind two interface aliases is part of the tree (512 subsets). Churn histories (children of one parent created and closed in every order, all / none / alternate instances failing) judged on stamps: when the first Close of a node returns, everything its subtree owned has been attempted and the verdict matches the failures inside that window.",
+ "C13": "Round 2: two overlapping cascades (Close(parent)||Close(provider), Close(parent) x2, Close(child)||Close(provider)) followed by use, judged on returned-Close stamps; overlap scenarios with the late instance's own Close failing; two providers from one collection. A disposable whose Close joins whatever another goroutine is doing on the scope (scoped in the scope / its parent, or a singleton) x 4 closers x 4 in-flight operations, all schedules within the bound: no deadlock. In-flight constructions with optional / group parameter-object fields on disposables overlapping every closer: never a half-initialised result.",
  "C15": "Round 2: every cyclic set on <=3 services is classifiable as CircularDependencyError; no panic while provider.Close is parked in user Close methods (all schedules); shape optional-deep (failures below a registered optional dependency); schedules of a resolution overlapping Close whose late instance fails its Close: errors.Is(disposed) must still hold.",
  "C16": "Round 2: a request passing the scope middleware twice (nested installation) on all five integrations.",
- "C17": "Round 2: named initializer functions and RemoveKeyed(struct{}, name); grouped registrations rejected for a reserved type at a later output; a reduced churn alphabet (plain / keyed / grouped adds of one type around removals) searched to depth 5/6.",
+ "C17": "Round 2: named initializer functions and RemoveKeyed(struct{}, name); grouped registrations rejected for a reserved type at a later output; a reduced churn alphabet (plain / keyed / grouped adds of one type around removals) searched to depth 5/6. Instance registrations of NON-pointer values (plain, keyed, grouped, rejected) around Remove / RemoveKeyed to depth 4 (5).",
  "C18": "Round 2 (rebuilt): 6 tree shapes of three scopes x 5 context kinds per scope (incl. contexts derived from the parent's and from another scope's Context()) x 3 resolution orders; FromContext of every injected context; cancellation must not leak to unrelated scopes; every schedule (bound 2/3) of two goroutines resolving built-in consumers in different scopes; 21 reserved-type registration routes incl. all grouped batch forms; built-ins as optional parameter-object fields; a singleton that warms up through a self-made scope during Build.",
  "C19": "Round 2: every DAG on 4 and 5 nodes (all edge sets respecting one topological order x all relabellings) built deferred and immediately from both base map orders, all queries compared. Multi-edges (a provider naming one dependency twice) are part of the alphabet; dependents are compared as sets.",
  "C20": "Round 2: nested trees judged under three module-naming schemes (unique / one name / alternating); the same module values applied to a second fresh collection. Forests of <=3 (4) leaves also with all-scoped, all-transient and rotating lifetimes of the Add entries.",
